@@ -366,6 +366,7 @@ pub fn run_c01(ctx: &Ctx) {
         with_graph_k!(gc.kidx, K => compress_case::<K>(c, &gc, Which::Lossless))
     });
     if ctx.tier == crate::runner::Tier::Thorough && !ctx.is_miri() {
+        ctx.set_case_timeout(600);
         ctx.run_group("compress_large", ctx.n(4, 200), false, |c| {
             let gc = gen_large_gcase(c);
             c.count("large_cases", 1);
@@ -387,6 +388,7 @@ pub fn run_c02(ctx: &Ctx) {
         with_graph_k!(gc.kidx, K => compress_case::<K>(c, &gc, Which::Maximal))
     });
     if ctx.tier == crate::runner::Tier::Thorough && !ctx.is_miri() {
+        ctx.set_case_timeout(600);
         ctx.run_group("maximal_large", ctx.n(4, 200), false, |c| {
             let gc = gen_large_gcase(c);
             c.count("large_cases", 1);
@@ -790,6 +792,7 @@ pub fn run_c03(ctx: &Ctx) {
         with_graph_k!(gc.kidx, K => c03_case::<K>(c, &gc))
     });
     if ctx.tier == crate::runner::Tier::Thorough && !ctx.is_miri() {
+        ctx.set_case_timeout(900);
         ctx.run_group("edges_large", ctx.n(2, 50), false, |c| {
             let gc = gen_large_gcase(c);
             c.count("large_cases", 1);
@@ -1031,6 +1034,7 @@ pub fn run_c04(ctx: &Ctx) {
         })
     });
     if ctx.tier == crate::runner::Tier::Thorough && !ctx.is_miri() {
+        ctx.set_case_timeout(900);
         let nl = ctx.n(2, 12);
         ctx.run_group("sharded_vs_direct_large", nl, false, |c| c04_large(c));
     }
